@@ -268,8 +268,11 @@ def expectations(cfg):
         for _ in range(3):
             g.run_one_tick()
         return seen
-    for wait_ticks in cfg["waits"]:
+    from .. import scale as _scale
+    big_wait, _sinfo = _scale.size(["workload/workload", "workload/__init__"], 3000, 9_000_000)
+    for wait_ticks in list(cfg["waits"]) + ([big_wait] if cfg["nops"] == 5 else []):
         gaps = []
+        zs_here = qs if wait_ticks <= 5000 else [-1.0, 0.0, 1.0]      # (very long waits: three answers, millions of ticks each)
         # the gap draw is identified by what it REACTS to, not by what it is expected to look like: the normal draw
         # whose centre moves when waiting_seconds_mean moves (everything else equal)
         da, db = normal_draws(wait_ticks), normal_draws(3 * wait_ticks + 7)
@@ -281,7 +284,7 @@ def expectations(cfg):
             wmean = da[gapidx][0]
             if abs(wmean - wait_ticks) > 1 + 0.01 * wait_ticks:    # (one tick of float truncation and 1% are not "a different average")
                 viol.append(("gap-draw-centre", f"waiting_seconds_mean={wait_ticks / tps}s at {tps} ticks/s is {wait_ticks} ticks, but the gap is drawn around {wmean}", dict(cfg=cfg, wait=wait_ticks)))
-        for z in qs:
+        for z in zs_here:
             if gapidx is None:
                 gaps = None
                 break
@@ -301,6 +304,10 @@ def expectations(cfg):
                 viol.append(("gap-missing", f"no second event within {t} ticks", dict(cfg=cfg, wait=wait_ticks)))
                 continue
             gaps.append(ev[1] - ev[0])
+            drawn = da[gapidx][0] + da[gapidx][1] * z
+            if abs((ev[1] - ev[0]) - max(1.0, drawn)) > 1.5 + 1e-9 * abs(drawn):
+                viol.append(("gap-not-as-drawn", f"a gap of {drawn:.1f} ticks was drawn (mean {wait_ticks} ticks at {tps}/s), the next event came after {ev[1] - ev[0]} ticks", dict(cfg=cfg, wait=wait_ticks)))
+                break
         if gaps:
             m = sum(gaps) / len(gaps)
             if min(gaps) < 1:
